@@ -89,3 +89,10 @@ Theorem C04_default_accuracy : forall n m avg idf,
   let res := bm25_one (f32_of_Z n) (f32_of_Z m) avg idf k1_default b_default (one_minus b_default) in
   (Rabs (B2R 24 128 res - exact) <= bpow radix2 (-17) * Rabs exact)%R.
 Proof. exact bm25_default_accuracy_real. Qed.
+
+(* Assumptions of the remaining named statements of this file (the gate requires one per statement). *)
+Print Assumptions C04_avg_zero.
+Print Assumptions C04_formula_zero.
+Print Assumptions C04_denominator_positive.
+Print Assumptions C04_legacy_is_k1_plus_1_times_modern.
+Print Assumptions C04_default_accuracy.
